@@ -59,6 +59,10 @@ def sched_parts(pid: str, tier: str):
         # the values clause on the front end: what a node receives through keyword / indexed / nested-DAG plumbing
         parts.append(Part("received-values-programs", P(run_dataflow, DCfg(focus="C20", depth=2, budget=2)), {"what": "arguments received by nodes (keyword, indexed, unpacked, through nested DAGs) equal the plain evaluation",
                           "deviation budget": 2, "nesting depth": 2}, 900, 7, ["w_sub", "w_call"], FRONT_FUNCS))
+        from harness.compose import CCfg, run_compose
+
+        parts.append(Part("values-after-compose", P(run_compose, CCfg(N=3, setup=False, activation=False, features="kw")), {"N": 3, "what": "nodes of the original DAG still receive their dependencies' values (keyword / indexed uses) after a DAG was composed from it"},
+                          900, 7, ["w_proper_composition"], COMPOSE_FUNCS))
         if not q:
             mk("whole-run-N4", Cfg(N=4, resources="tma", max_async=1, activation=False, monitors=mons), base_req, 1500, 9)
     elif pid == "C03":
@@ -73,7 +77,7 @@ def sched_parts(pid: str, tier: str):
         parts.append(Part("setup-histories-len3-N2", P(run_c11, HCfg(N=2, length=3, flavours="s")), {"N": 2, "length": 3, "what": "an already-set-up node is not entered again"}, 900, 8, ["w_reuse"], HIST_FUNCS))
         from harness.history import run_c15
 
-        parts.append(Part("executor-histories-len2", P(run_c15, HCfg(length=2, flavours="sa")), {"length": "2+1", "what": "an executor re-run after a failed run enters every selected node (or refuses)"}, 900, 8, ["w_final_call"], HIST_FUNCS))
+        parts.append(Part("executor-histories-len3", P(run_c15, HCfg(length=3, flavours="sa", ops="exec")), {"length": "3+1", "operations": "call, executor create (whole / target), run, failing run", "what": "an executor re-run after a failed run enters every selected node (or refuses)"}, 900, 8, ["w_final_call", "w_rerun_after_failure"], HIST_FUNCS))
         if not q:
             mk("whole-run-N4-selection", Cfg(N=4, resources="tm", selection=True, sym_seq=False, monitors=mons), base_req, 1500, 9)
     elif pid == "C04":
@@ -114,7 +118,7 @@ def sched_parts(pid: str, tier: str):
         from harness.history import HCfg, run_c15
 
         # "never returns normally while a selected active node has not run": executor runs after a failed run
-        parts.append(Part("executor-histories-len2", P(run_c15, HCfg(length=2, flavours="sa")), {"length": "2+1", "what": "an executor re-run after a failed run runs its complete selection or refuses"}, 900, 8, ["w_final_call"], HIST_FUNCS))
+        parts.append(Part("executor-histories-len3", P(run_c15, HCfg(length=3, flavours="sa", ops="exec")), {"length": "3+1", "operations": "call, executor create (whole / target), run, failing run", "what": "an executor re-run after a failed run runs its complete selection or refuses"}, 900, 8, ["w_final_call", "w_rerun_after_failure"], HIST_FUNCS))
         if not q:
             mk("whole-run-N3-two-faults-activation", Cfg(N=3, resources="tma", faults=2, activation=True, monitors=mons), base_req + ["w_fault"], 1500)
             mk("whole-run-N4", Cfg(N=4, resources="tma", max_async=1, faults=1, monitors=mons), base_req, 1500, 9)
